@@ -10,6 +10,7 @@ import (
 	"strings"
 	"time"
 
+	"github.com/aws/aws-sdk-go/aws/awserr"
 	"github.com/jrhy/s3db"
 
 	"verif/harness/fakes3"
@@ -43,7 +44,7 @@ type witness struct {
 	id    string
 	props []string
 	what  string
-	known bool // a recorded finding: "" result = reproduced
+	known bool                 // a recorded finding: "" result = reproduced
 	run   func(w *wEnv) string // "" = behaves as the property requires; otherwise what went wrong
 }
 
@@ -54,7 +55,7 @@ func wantEq(what, got, want string) string {
 	return ""
 }
 
-func i(n int) string { return fmt.Sprintf("I:%d", n) }
+func i(n int) string    { return fmt.Sprintf("I:%d", n) }
 func t(s string) string { return fmt.Sprintf("T:%x", s) }
 
 var witnesses = []witness{
@@ -171,7 +172,11 @@ var witnesses = []witness{
 		w.x("delete from t where a=2")
 		w.x("insert into t values (3,'z')")
 		v2 := w.q("select s3db_version('t')")
-		dec := func(s string) string { b := make([]byte, len(s)/2-1); fmt.Sscanf(strings.TrimPrefix(s, "T:"), "%x", &b); return string(b) }
+		dec := func(s string) string {
+			b := make([]byte, len(s)/2-1)
+			fmt.Sscanf(strings.TrimPrefix(s, "T:"), "%x", &b)
+			return string(b)
+		}
 		w.x(fmt.Sprintf("create virtual table ch using s3db_changes(table='t', from='%s', to='%s')", dec(v1), dec(v2)))
 		return wantEq("changes", w.q("select a from ch"), i(3))
 	}},
@@ -303,6 +308,41 @@ var witnesses = []witness{
 		w.x("update s3db_conn set deadline=NULL")
 		w.x("commit")
 		return wantEq("write_time after the transaction", w.q("select write_time from s3db_conn"), "N")
+	}},
+	{id: "F38", props: []string{"C09"}, what: "vacuum after a half-failed retirement left a current version pointing at deleted nodes", run: func(w *wEnv) string {
+		w.mk("t", "k primary key, a", sqlh.TableOpts{EntriesPerNode: 2})
+		for k := 0; k < 12; k++ {
+			w.x("insert into t values(?,'v')", k)
+		}
+		for k := 0; k < 12; k += 3 {
+			w.x("delete from t where k=?", k)
+		}
+		db2 := sqlh.Open()
+		defer db2.Close()
+		var cl *fakes3.Client
+		sqlh.NextClient("vac", func(c *fakes3.Client) { cl = c })
+		r := sqlh.XS(db2, sqlh.CreateSQL(sqlh.TableOpts{Name: "v", Bucket: w.bucket, Prefix: "p", Columns: "k primary key, a", EntriesPerNode: 2}))
+		sqlh.NextClient("", nil)
+		if r != "ok" || cl == nil {
+			return "open: " + r
+		}
+		hit := false
+		cl.Fault = func(idx, midx int, op, key string) error {
+			if !hit && op == "PUT" && strings.Contains(key, "/root/merged/") {
+				hit = true
+				return awserr.New("InternalError", "injected fault", nil)
+			}
+			return nil
+		}
+		err := s3db.Vacuum(context.Background(), "v", time.Now().Add(time.Hour))
+		cl.Fault = nil
+		if err != nil || !hit {
+			return fmt.Sprintf("vacuum: %v (fault hit %v)", err, hit)
+		}
+		if d := danglingIn(w.store, "p/s3db-rows/root/current/"); len(d) > 0 {
+			return fmt.Sprintf("a version still listed as current refers to deleted nodes: %v", d[:min(len(d), 2)])
+		}
+		return wantEq("rows after the vacuum", sqlh.QS(db2, "select count(*) from v"), i(8))
 	}},
 	{id: "F15", props: []string{"C03"}, what: "an open racing with a commit showed an empty table (kv level)", run: func(w *wEnv) string {
 		// covered exhaustively by the proto stream; here: a version that left root/current/ between LIST and GET
